@@ -428,6 +428,11 @@ fn svc_strategy(big: bool) -> BoxedStrategy<SvcCase> {
         Just(("GET".to_string(), "/1mb.bin.".to_string(), None, 0)),
         Just(("GET".to_string(), "/x/1mb.bin".to_string(), None, 0)),
         Just(("DELETE".to_string(), "/1mb.bin".to_string(), None, 0)),
+        // the optional /speed segment is optional once
+        Just(("GET".to_string(), "/speed/speed/1mb.bin".to_string(), None, 0)),
+        Just(("GET".to_string(), "/speed/speed/speed/2mb.bin".to_string(), None, 0)),
+        Just(("POST".to_string(), "/speed/speed/upload.html".to_string(), Some("10".to_string()), 0)),
+        Just(("GET".to_string(), "/speed/x/1mb.bin".to_string(), None, 0)),
     ];
     let speed = prop_oneof![5 => download, 4 => upload, if big { 0 } else { 2 } => other];
     let ping_req = prop_oneof![
